@@ -54,6 +54,9 @@ class Gen:
         cm = None
         if r.random() < 0.25:
             body = m + ' ' + self.comment(False, in_math=m) + 'x'
+        elif r.random() < 0.2:
+            # line separators other than a bare newline inside the formula source
+            body = m + r.choice(['\r\nx', '\ry', ' \x0cz', '\x0bw', '\r\n y \r\nz', 'a\nb'])
         if kind in ('equation', 'align*'):
             src = '\\begin{%s}%s\\end{%s}' % (kind, body, kind)
             self.maths.append((m, src, '\\begin{%s}' % kind, '\\end{%s}' % kind, True, visible))
@@ -104,7 +107,9 @@ class Gen:
             e = r.choice(['itemize', 'center', 'enumerate', 'unknownenvq', 'flushleft'])
             return '\\begin{%s}' % e + self.items(depth + 1, visible) + '\\end{%s}' % e
         if k < 0.96:
-            return r.choice(['\\alpha ', '\\S{}', '\\ldots ', '\\LaTeX ', '\\alpha'])
+            # also macros that share their name with an environment (looked up separately)
+            return r.choice(['\\alpha ', '\\S{}', '\\ldots ', '\\LaTeX ', '\\alpha', '\\equation ', '\\itemize ',
+                             '\\center ', '\\align ', '\\enumerate '])
         return '\\footnote{' + self.items(depth + 1, visible) + '}'
 
 
